@@ -117,6 +117,7 @@ type Machine struct {
 	sched     []int
 	preempts  int
 	schedOff  bool // sym.Schedules(false): the default schedule only, no delay is spent
+	timerChoice bool // a timer's "has it fired yet" was decided on this path: not reproducible natively
 	mutexes   map[*value]*mutexState
 	wgs       map[*value]*wgState
 	onces     map[*value]*onceState
@@ -541,6 +542,12 @@ func (m *Machine) recordViolation(kind, label, detail string, extra map[string]s
 	if err != nil {
 		m.abort("model extraction failed for violation %q: %v", label, err)
 	}
+	if m.timerChoice {
+		if extra == nil {
+			extra = map[string]string{}
+		}
+		extra["timer-dependent"] = "true"
+	}
 	v := &Violation{Label: label, Kind: kind, Site: m.where(), Detail: detail, Inputs: ins,
 		Sched: append([]int(nil), m.sched...), Trace: m.stackTrace(), Extra: extra, Harness: m.harness}
 	m.violations = append(m.violations, v)
@@ -686,6 +693,7 @@ func (m *Machine) resetPath() {
 	m.sched = nil
 	m.preempts = 0
 	m.schedOff = false
+	m.timerChoice = false
 	m.mutexes = map[*value]*mutexState{}
 	m.wgs = map[*value]*wgState{}
 	m.onces = map[*value]*onceState{}
